@@ -27,3 +27,20 @@ Example c01_nonvacuous :
   snd (step demo_pr (mkst [] [0;1;2;3;4;5;6]) (Put [[72;73]] [0;5;300])) = Accepted
   /\ vlookup (fst (step demo_pr (mkst [] [0;1;2;3;4;5;6]) (Put [[72;73]] [0;5;300]))) [[72;73]] = Some (false, [0;5;300], false).
 Proof. split; vm_compute; reflexivity. Qed.
+
+(* ---------- the concrete ProDOS file structure (seedling / sapling / tree, Fs/ProdosTree.v, tied to write_file / read_file by the
+   prodos-structure correspondence stream) ---------- *)
+From A2 Require Import Fs.ProdosTree Fs.ProdosTreeProofs.
+
+(* for EVERY non-empty chunk set below the 32768-block limit - dense or with holes anywhere, the first chunk included - and every free
+   list without repetitions that is long enough, walking the structure from the key pointer finds exactly the chunks that were stored,
+   each at its own index and in the data block it was written to: holes stay holes in all three storage forms *)
+Theorem c01_prodos_structure : forall cs free, cs <> [] -> cs_end cs <= 32768 -> NoDup free -> ~ In 0 free ->
+  (length (events cs) <= length free)%nat ->
+  forall c b, In (c, b) (pd_read (pd_layout cs free)) <-> In c cs /\ b = block_of (EData c) (events cs) free.
+Proof. exact pd_read_correct. Qed.
+Print Assumptions c01_prodos_structure.
+
+Example c01_prodos_structure_nonvacuous : let cs := [0; 255; 256; 600; 1300] in let free := map N.of_nat (seq 7 40) in
+  cs <> [] /\ cs_end cs <= 32768 /\ (length (events cs) <= length free)%nat /\ l_storage (pd_layout cs free) = 3 /\ l_blocks (pd_layout cs free) = 10.
+Proof. exact pd_example. Qed.
